@@ -3,29 +3,30 @@ import FranzVerif.Proof.C15e
 namespace Proof.C15
 open Model.C15
 
-theorem emptyArr_null (ver : Int) (k : AKind) (h : k.nullableAt ver = true) : emptyArr ver k (-1) = .null := by
+theorem emptyArr_null (ver : Int) (k : AKind) (hv : 0 ≤ ver) (h : k.nullableAt ver = true) : emptyArr ver k (-1) = .null := by
   cases k with
   | normal => simp [AKind.nullableAt] at h
   | varint => simp [AKind.nullableAt] at h
   | nullable n =>
     simp only [AKind.nullableAt, decide_eq_true_eq] at h
-    have : ¬ (ver < n) := by omega
-    simp [emptyArr, this]
+    have h1 : ¬ (ver < n) := by omega
+    have h2 : ¬ (ver < 0) := by omega
+    simp [emptyArr, h1, h2]
 
 mutual
 theorem decEnc : ∀ t : Ty, DecEnc t
   | .prim p => by
-    intro c flex v bs rest _ h _
+    intro c flex v bs rest _ _ h _
     simp only [enc] at h
     rw [dec]
     simpa [canon] using decPrim_encPrim p v bs rest h
   | .str k => by
-    intro c flex v bs rest _ h _
+    intro c flex v bs rest _ _ h _
     simp only [enc] at h
     rw [dec]
     simpa [canon] using decStr_encStr c.ver flex k v bs rest h
   | .arr k t => by
-    intro c flex v bs rest hs h hcap
+    intro c flex v bs rest hv hs h hcap
     have ht := decEnc t
     simp only [schemaOK, Bool.and_eq_true, decide_eq_true_eq] at hs
     cases v <;> simp only [enc] at h <;> try contradiction
@@ -35,7 +36,7 @@ theorem decEnc : ∀ t : Ty, DecEnc t
       rw [dec, decArrLen_null]
       simp only [Res.andThen_ok]
       by_cases hn : k.nullableAt c.ver = true
-      · simp [hn, canon, emptyArr_null c.ver k hn]
+      · simp [hn, canon, emptyArr_null c.ver k hv hn]
       · have hn' : k.nullableAt c.ver = false := by simpa using hn
         simp [hn', canon]
     · -- a list
@@ -61,13 +62,13 @@ theorem decEnc : ∀ t : Ty, DecEnc t
         have hne : (vs.length == 0) = false := by simpa using h0
         rw [if_pos hpos, goMake_ok vs.length c.cap (by omega)]
         simp only [Res.andThen_ok]
-        rw [decList_encList c flex t ht hs.2 vs b rest hb (by omega)]
+        rw [decList_encList c flex t ht hv hs.2 vs b rest hb (by omega)]
         simp [canon, hne]
   | .struct nullable ff fs => by
-    intro c flex v bs rest hs h hcap
+    intro c flex v bs rest hv hs h hcap
     simp only [schemaOK, Bool.and_eq_true] at hs
     obtain ⟨hd, hsf⟩ := hs
-    obtain ⟨Q1, Q2⟩ := decEncF fs c (flexAt ff c.ver) hsf
+    obtain ⟨Q1, Q2⟩ := decEncF fs c (flexAt ff c.ver) hv hsf
     cases v <;> simp only [enc] at h <;> try contradiction
     · -- nil pointer
       split at h <;> simp at h
@@ -107,7 +108,7 @@ theorem decEnc : ∀ t : Ty, DecEnc t
         have hkeys := encTags_keys c.ver true fs vals tags htags
         have hunk' := hunk
         simp only [unkOK, Bool.and_eq_true] at hunk'
-        rw [Q2 vals tags (tags ++ unk) htags hd
+        rw [Q2 vals tags (tags ++ unk) rfl htags hd
           (by intro k hk; rw [List.filter_append, filter_unk_known (knownTags fs) unk hunk'.2 k hk]; simp)
           (by intro e he
               have := mem_encTagEntries_le (tags ++ unk) e (by simp [he])
@@ -115,21 +116,21 @@ theorem decEnc : ∀ t : Ty, DecEnc t
         simp [canon, hfl, unknownOf_eq (knownTags fs) tags unk hkeys hunk]
 theorem decEncF : ∀ fs : Fields, DecEncF fs
   | .nil => by
-    intro c flex _
+    intro c flex _ _
     constructor
     · intro vals body rest h _
       cases vals <;> simp [encFields] at h
       subst h
       simp [decFields, canonFields]
-    · intro vals tags raw h _ _ _
+    · intro vals tags raw _ h _ _ _
       cases vals <;> simp [encTags] at h
       simp [applyTags, canonFields]
   | .cons name minV maxV tag d t rest => by
-    intro c flex hs
-    simp only [schemaOKF, Bool.and_eq_true] at hs
-    obtain ⟨hst, hsr⟩ := hs
+    intro c flex hv hs
+    simp only [schemaOKF, Bool.and_eq_true, Bool.or_eq_true] at hs
+    obtain ⟨hst', hsr⟩ := hs
     have ht := decEnc t
-    obtain ⟨R1, R2⟩ := decEncF rest c flex hsr
+    obtain ⟨R1, R2⟩ := decEncF rest c flex hv hsr
     constructor
     · -- body fields
       intro vals body rest' h hcap
@@ -154,16 +155,23 @@ theorem decEncF : ∀ fs : Fields, DecEncF fs
           rename_i a ha
           subst h
           simp only [List.length_append] at hcap
+          have hst : schemaOK c.ver t = true := by
+            cases tag with
+            | some k => simp at hc
+            | none =>
+              have hp : present minV maxV c.ver = true := by simpa using hc
+              simpa [hp] using hst'
           rw [decFields]
           simp only [hc, if_false, Bool.false_eq_true, List.append_assoc]
-          rw [ht c flex v a (b' ++ rest') hst ha (by simp only [List.length_append]; omega)]
+          rw [ht c flex v a (b' ++ rest') hv hst ha (by simp only [List.length_append]; omega)]
           simp only [Res.andThen_ok, R1 r b' rest' hb' (by omega), Res.map_ok]
           have hcc : tag = none ∧ present minV maxV c.ver = true := by
             cases tag <;> simp at hc ⊢
             exact hc
           simp [canonFields, hcc.1, hcc.2]
     · -- tagged fields
-      intro vals tags raw h hd hraw hcapt
+      intro vals tags raw hflex h hd hraw hcapt
+      subst hflex
       cases vals with
       | nil => simp [encTags] at h
       | cons v r =>
@@ -174,10 +182,11 @@ theorem decEncF : ∀ fs : Fields, DecEncF fs
         | none =>
           simp at h; subst h
           simp only [tagsDistinct] at hd
-          have := R2 r l raw hl hd (by intro k hk; exact hraw k (by simpa [knownTags] using hk)) hcapt
+          have := R2 r l raw rfl hl hd (by intro k hk; exact hraw k (by simpa [knownTags] using hk)) hcapt
           simp only [canonFields]
           rw [applyTags, this]
         | some k =>
+          have hst : schemaOK c.ver t = true := by simpa using hst'
           simp only [tagsDistinct, Bool.and_eq_true, Bool.not_eq_true'] at hd
           obtain ⟨hk, hd'⟩ := hd
           have hkn : k ∉ knownTags rest := by simpa using hk
@@ -185,12 +194,12 @@ theorem decEncF : ∀ fs : Fields, DecEncF fs
             rw [List.filter_eq_nil_iff]
             intro e he hek
             have : e.1 = k := by simpa using hek
-            exact hkn (this ▸ encTags_keys c.ver flex rest r l hl e he)
+            exact hkn (this ▸ encTags_keys c.ver true rest r l hl e he)
           simp only at h
           by_cases hdef : tagIsDefault c.ver t d v = true
           · simp only [hdef, if_true, Option.some.injEq] at h
             subst h
-            have hrest := R2 r l raw hl hd'
+            have hrest := R2 r l raw rfl hl hd'
               (by intro k' hk'; exact hraw k' (by simp [knownTags, hk'])) hcapt
             have hrk := hraw k (by simp [knownTags])
             rw [hlk] at hrk
@@ -201,7 +210,7 @@ theorem decEncF : ∀ fs : Fields, DecEncF fs
             split at h <;> simp at h
             rename_i a ha
             subst h
-            have hrest := R2 r l raw hl hd'
+            have hrest := R2 r l raw rfl hl hd'
               (by intro k' hk'
                   have hne : (k == k') = false := by
                     simp only [beq_eq_false_iff_ne]; intro e; exact hkn (e ▸ hk')
@@ -213,7 +222,7 @@ theorem decEncF : ∀ fs : Fields, DecEncF fs
             have hcapa : a.length + ([] : Bytes).length ≤ c.cap := by
               have := hcapt (k, a) (by simp)
               simpa using this
-            have hdec := ht c flex v a [] hst ha hcapa
+            have hdec := ht c true v a [] hv hst ha hcapa
             simp only [List.append_nil] at hdec
             simp only [canonFields]
             rw [applyTags, hrest]
